@@ -70,6 +70,25 @@ def run_one(R, level, roots, db, api, label, w=None):
         R.violation(case, "walk raised %r against a conformant agent" % (outcome,), None)
         return
     problems = wc.judge_py(ys, db, roots) if api.startswith("py") else wc.judge(ys, db, roots)
+    if api == "fetcherwalk" and len(roots) > 1:
+        # what a fetcher of the caller's own owes the walk is not specified: with several
+        # roots only termination (above), and nothing foreign, doubled or altered, is judged
+        problems = [p for p in problems if p[0] != "lost"]
+        R.mon["own_fetcher_multiroot_walks_terminated"] += 1
+    if not problems and len(roots) == 1 and not api.startswith("py") and len(ys) > 1:
+        # the result objects themselves: where they can be compared at all, their order is
+        # the OID order the walk delivered them in (sorted(), bisect, max() on results)
+        rows = list(getattr(w, "last_rows", []))
+        try:
+            resorted = sorted(reversed(rows))
+        except Exception:  # noqa: BLE001 - not comparable: nothing to judge
+            resorted = None
+            R.mon["result_rows_not_comparable"] += 1
+        if resorted is not None:
+            if [rig.oid_t(vb.oid) for vb in resorted] != [o for o, _ in ys]:
+                problems.append(("order", "sorted() of the yielded VarBinds is not in OID order: %r" % ([str(vb.oid) for vb in resorted][:6],)))
+            else:
+                R.mon["result_rows_sort_in_oid_order"] += 1
     if problems:
         mech = classify(problems, feats, len(roots))
         R.violation(
@@ -129,6 +148,8 @@ def run(R):
         for roots, db in corner:
             for level in rig.V2_LEVELS:
                 run_one(R, level, roots, db, "multiwalk", "corner")
+            run_one(R, "v2c", roots, db, "fetcherwalk", "corner")
+            R.mon["own_fetcher_walks"] += 1
 
 
 def boundary(R):
@@ -147,6 +168,9 @@ def boundary(R):
             else:
                 run_one(R, level, roots, db, "walk", label)
                 run_one(R, level, roots, db, "pywalk", label)
+            if not many:
+                run_one(R, level, roots, db, "fetcherwalk", label)
+                R.mon["own_fetcher_walks"] += 1
             R.mon["boundary_walks"] += 1
 
 
